@@ -225,7 +225,11 @@ def _smoothed_case(case, fail):
                 continue
             if not np.all(np.isfinite(G)):
                 r = int(np.argmax(~np.isfinite(G).all(axis=(1, 2))))
-                fail(f"smoothed:gradient-not-finite:{cls}:{dt}", dict(tag, field=F[r].tolist(), grad=G[r].tolist()))
+                # failing-input class: squared gradient norm (in 1/um^2) of the field in the underflow neighbourhood of the dtype?
+                g0, g1 = np.gradient(F[r].astype(np.float64))
+                hlp = (g0 / (vox / 1e-6)) ** 2 + (g1 / (vox / 1e-6)) ** 2
+                tiny = bool((hlp > 0).any() and hlp[hlp > 0].min() < np.sqrt(float(np.finfo(npd).tiny)))
+                fail(f"smoothed:gradient-not-finite:{cls}:{dt}:{'gradient-norm^2<sqrt(tiny)' if tiny else 'ordinary-gradient-norm'}", dict(tag, field=F[r].tolist(), grad=G[r].tolist(), min_positive_sq_norm=float(hlp[hlp > 0].min()) if (hlp > 0).any() else 0.0))
             dev = np.where(far, np.abs(Ys.astype(np.float64) - Yp.astype(np.float64)), 0.0)
             if dev.max() > tol:
                 r = int(np.argmax(dev.max(axis=(1, 2))))
